@@ -22,7 +22,7 @@ dst = "/verif/seeded/%s-%s" % (pid, x)
 os.makedirs(dst, exist_ok=True)
 out = os.path.join(wt, "out")
 shutil.rmtree(out, ignore_errors=True)
-os.makedirs(out)
+os.makedirs(out, exist_ok=True)
 srcdir = None
 for cand in ("out", "out2", "out1"):
     c = os.path.join(srcwt, cand)
@@ -48,27 +48,33 @@ open(os.path.join(out, "go.mod"), "w").write("module out\n")
 patch = os.path.join(out, "%s.patch.diff" % x)
 meta = json.load(open(os.path.join(out, "%s.meta.json" % x)))
 res = {"property": pid, "variant": x, "summary": meta.get("summary"), "needs": meta.get("needs"), "files": meta.get("files"), "demo_cmd": meta.get("demo_cmd")}
+NOCONFIRM = "--no-confirm" in sys.argv
 # ---- 1. confirm in the scratch worktree
-CLEAN = "git checkout -- . && git clean -fdq -e 'out*' -e '_out*'"
-sh(CLEAN, wt)
-hide = "mv out _out"; unhide = "mv _out out"
-rc, o = sh("git apply out/%s.patch.diff" % x, wt)
-res["applies"] = rc == 0
-sh(hide, wt)
-rc, o = sh("go build ./... && go vet ./... && go build -tags verif ./... && go test -count=1 ./... 2>&1 | tail -5", wt, timeout=1200)
-sh(unhide, wt)
-res["build_vet_tests_with_change"] = "ok" if rc == 0 and "FAIL" not in o else "FAILED: " + o[-500:]
-demo = meta.get("demo_cmd", "")
-rc1, o1 = sh("timeout 300 bash -c %r" % demo, wt, timeout=400)
-failed1 = rc1 != 0 or re.search(r"^(--- FAIL|FAIL|panic:|fatal error)", o1, re.M) is not None
-res["demo_with_change"] = "fails (expected)" if failed1 else "PASSES (unexpected)"
-res["demo_with_change_tail"] = o1[-400:]
-sh(CLEAN, wt)
-rc2, o2 = sh("timeout 300 bash -c %r" % demo, wt, timeout=400)
-failed2 = rc2 != 0 or re.search(r"^(--- FAIL|FAIL|panic:|fatal error)", o2, re.M) is not None
-res["demo_without_change"] = "passes (expected)" if not failed2 else "FAILS (unexpected): " + o2[-300:]
-sh(CLEAN, wt)
-res["confirmed"] = res["applies"] and res["build_vet_tests_with_change"] == "ok" and failed1 and not failed2
+if NOCONFIRM:
+    old = json.load(open(os.path.join(dst, "meta.json")))
+    for k in ("applies", "build_vet_tests_with_change", "demo_with_change", "demo_with_change_tail", "demo_without_change", "confirmed"):
+        res[k] = old.get(k)
+else:
+    CLEAN = "git checkout -- . && git clean -fdq -e 'out*' -e '_out*'"
+    sh(CLEAN, wt)
+    hide = "mv out _out"; unhide = "mv _out out"
+    rc, o = sh("git apply out/%s.patch.diff" % x, wt)
+    res["applies"] = rc == 0
+    sh(hide, wt)
+    rc, o = sh("go build ./... && go vet ./... && go build -tags verif ./... && go test -count=1 ./... 2>&1 | tail -5", wt, timeout=1200)
+    sh(unhide, wt)
+    res["build_vet_tests_with_change"] = "ok" if rc == 0 and "FAIL" not in o else "FAILED: " + o[-500:]
+    demo = meta.get("demo_cmd", "")
+    rc1, o1 = sh("timeout 300 bash -c %r" % demo, wt, timeout=400)
+    failed1 = rc1 != 0 or re.search(r"^(--- FAIL|FAIL|panic:|fatal error)", o1, re.M) is not None
+    res["demo_with_change"] = "fails (expected)" if failed1 else "PASSES (unexpected)"
+    res["demo_with_change_tail"] = o1[-400:]
+    sh(CLEAN, wt)
+    rc2, o2 = sh("timeout 300 bash -c %r" % demo, wt, timeout=400)
+    failed2 = rc2 != 0 or re.search(r"^(--- FAIL|FAIL|panic:|fatal error)", o2, re.M) is not None
+    res["demo_without_change"] = "passes (expected)" if not failed2 else "FAILS (unexpected): " + o2[-300:]
+    sh(CLEAN, wt)
+    res["confirmed"] = res["applies"] and res["build_vet_tests_with_change"] == "ok" and failed1 and not failed2
 # ---- 2. run the checks against /repo with the change applied
 rc, o = sh("git status --porcelain", "/repo")
 if o.strip():
@@ -81,7 +87,7 @@ try:
     else:
         for c in checks:
             t0 = time.time()
-            env = dict(ENV, VERIF_EVIDENCE_DIR="/tmp/mut/evidence-scratch")
+            env = dict(ENV, VERIF_EVIDENCE_DIR="/tmp/evidence-scratch")
             rc, o = sh("./check %s --tier %s" % (c, tier), "/verif", timeout=3600, env=env)
             lines = [l for l in o.splitlines() if l.startswith(("VIOLATION", "KNOWN-FINDING", "BROKEN-OBLIGATION", "INFRA", "check "))]
             res["checks"][c] = {"exit": rc, "lines": lines[:12], "wall_s": round(time.time() - t0)}
@@ -98,5 +104,10 @@ for f in os.listdir(out):
         if os.path.isdir(src): shutil.copytree(src, os.path.join(dst, f), dirs_exist_ok=True)
         else: shutil.copy(src, os.path.join(dst, f))
 res["detected_by"] = [c for c, r in res["checks"].items() if isinstance(r, dict) and r["exit"] == 1]
+if tier != "quick" and os.path.exists(os.path.join(dst, "meta.json")):
+    # a thorough-tier run is recorded next to the quick-tier verdict, not instead of it
+    old = json.load(open(os.path.join(dst, "meta.json")))
+    old["checks_thorough"] = res["checks"]
+    res = dict(old, detected_by=old.get("detected_by", []))
 json.dump(res, open(os.path.join(dst, "meta.json"), "w"), indent=1)
 print(json.dumps({k: res[k] for k in ("property", "variant", "confirmed", "detected_by", "checks")}, indent=1)[:1500])
